@@ -33,6 +33,7 @@ def program(rng):
     names = rng.sample(NAMES, nstruct)
     lines, structs = [], {}
     loc = 0
+    nbuf = -1
     for n in names:
         k = rng.randint(1, 5)
         locs = list(range(loc, loc + k))
@@ -46,6 +47,11 @@ def program(rng):
             fields = ["@builtin(instance_index) ii: u32"]
         structs[n] = fields
         lines.append("struct %s { %s }" % (n, ", ".join(fields)))
+        if rng.random() < 0.3 and not any("f64" in f for f in fields):
+            # the vertex input struct is ALSO the element type of a buffer (compute-then-draw): its attribute table must
+            # still carry the offsets / stride of the Rust struct
+            nbuf += 1
+            lines.append("@group(0) @binding(%d) var<storage, read> buf%d: array<%s, 4>;" % (nbuf, nbuf, n))
     nent = rng.randint(1, 3)
     for e in range(nent):
         chosen, used_bi = [], set()
@@ -135,6 +141,35 @@ def verdict_expr(c, r, ir, real):
             'on_out %s (fun o => C07_ok %s o && %s && %s); '
             'on_out %s kf_vertex_struct_missing; kf_bare_location_arg %s]'
             % (ir, ir, real, ir, coq_options(c["opts"]), real, real, ir, obs_expr, "true" if stage else "false", real, ir))
+
+
+def behavioural_ok(r):
+    """(b) from the compiled module alone (used when the extractor cannot follow the text): every attribute table must
+    carry, in order, rustc's own offset_of! of the fields of the struct it describes, the stride must be rustc's
+    size_of, both step modes must give the same table, and every entry helper must return its structs' layouts."""
+    obs = r.get("obs") or {}
+    vs = obs.get("vertex_structs")
+    if not isinstance(vs, dict):
+        return None, "no observations"
+    for name, d in vs.items():
+        st = (obs.get("structs") or {}).get(name)
+        if st is None:
+            continue
+        offs = [f["offset"] for f in st["fields"]]
+        got = [a["offset"] for a in d["attributes"]]
+        if got != offs:
+            return False, "attribute offsets of %s are %s, rustc's field offsets are %s" % (name, got, offs)
+        if d["layout_vertex"]["array_stride"] != st["size"] or d["layout_instance"]["array_stride"] != st["size"]:
+            return False, "array_stride of %s is %s, size_of is %s" % (name, d["layout_vertex"]["array_stride"], st["size"])
+    return True, ""
+
+
+def verdict_expr_noout(c, r, ir):
+    ok, why = behavioural_ok(r)
+    if ok is None:
+        return None
+    c["note"] = why
+    return "[true; false; %s; false; false]" % ("true" if ok and oracle_ok(r) else "false")
 
 
 def nontrivial(c, r):
